@@ -5,7 +5,7 @@ import "time"
 func init() {
 	props = append(props, prop{
 		ID: "C03", Title: "Connection lifecycle; truthful dial result", Level: "exploration",
-		Rule:        "case = (tcp|unix) x (LT|ET|ONESHOT) x 1-3 pollers, 4-15 connections created by accept / AddConn / DialAsync, each ended by a seeded scenario: peer close, peer reset, Close, CloseWithError(e), 2-8 goroutines closing at once (while reads and writes are in flight), read deadline, write overflow, Close inside the open callback, engine Stop, peer reset/close while nbio holds a write backlog (failure met by the poller's flush), and - phase shim - the n-th write-side syscall failing with ECONNRESET/EPIPE/ETIMEDOUT; seeded delays at close.beforeTeardown / addConn.afterOnOpen / acceptor.afterAccept. Oracle over the notification log (one logical clock): exactly one close notification per connection at quiescence and after Stop, never before the open notification, error = the single injected cause (or one of the concurrent causes); after Close returned Write/Writev/Sendfile fail, Execute is false and its job never runs, and a victim socket re-occupying the freed descriptor number receives nothing; DialAsync against harness listeners with known outcome (accepted / refused / accept-queue full + timeout / still connecting when the engine stops / missing unix path / unix listener whose accept queue is full (connect() answers EAGAIN; success only if the listener accepts more than its fillers)): exactly one outcome report, success only if the listener really accepted. Missing notifications are decided at quiescence (no events, idle CPU, 60 samples / 3 s). A case is non-trivial when all its connections and dials were decided; distinct by case index One more step per case: a connection its owner closes before, or while, handing it to AddConn - whatever the engine announces for it must be paired (decided at quiescence, before Stop). Asynchronous reading (AsyncReadInPoller) is on in half of the ET/ONESHOT cells (signatures <mode>-async). One more step: a dialed UDP connection exchanges one datagram with a plain echo socket and is then ended by Close, CloseWithError(e) or a read deadline - exactly one close notification carrying that cause.",
+		Rule:        "case = (tcp|unix) x (LT|ET|ONESHOT) x 1-3 pollers, 4-15 connections created by accept / AddConn / DialAsync, each ended by a seeded scenario: peer close, peer reset, Close, CloseWithError(e), 2-8 goroutines closing at once (while reads and writes are in flight), read deadline, write overflow, Close inside the open callback, engine Stop, peer reset/close while nbio holds a write backlog (failure met by the poller's flush), and - phase shim - the n-th write-side syscall failing with ECONNRESET/EPIPE/ETIMEDOUT; seeded delays at close.beforeTeardown / addConn.afterOnOpen / acceptor.afterAccept. Oracle over the notification log (one logical clock): exactly one close notification per connection at quiescence and after Stop, never before the open notification, error = the single injected cause (or one of the concurrent causes); after Close returned Write/Writev/Sendfile fail, Execute is false and its job never runs, and a victim socket re-occupying the freed descriptor number receives nothing; DialAsync against harness listeners with known outcome (accepted / refused / accept-queue full + timeout / still connecting when the engine stops / missing unix path / unix listener whose accept queue is full (connect() answers EAGAIN; success only if the listener accepts more than its fillers)): exactly one outcome report, success only if the listener really accepted. Missing notifications are decided at quiescence (no events, idle CPU, 60 samples / 3 s). A case is non-trivial when all its connections and dials were decided; distinct by case index One more step per case: a connection its owner closes before, or while, handing it to AddConn - whatever the engine announces for it must be paired (decided at quiescence, before Stop). Asynchronous reading (AsyncReadInPoller) is on in half of the ET/ONESHOT cells (signatures <mode>-async). One more step: a dialed UDP connection exchanges one datagram with a plain echo socket and is then ended by Close, CloseWithError(e) or a read deadline - exactly one close notification carrying that cause. Scenario peer-close-in-handler: the data handler of the connection is held while the peer sends more and closes, so the hang-up is dispatched while a handler (with asynchronous reading: the reading job) of the same connection is running; exactly one close notification of the peer class must still follow.",
 		Assumptions: commonAssumptions,
 		Phases: []phase{
 			{Name: "main", Pkg: "./workers/c03", QuickShards: 12, ThorShards: 16, QuickTO: 6 * time.Minute},
